@@ -31,8 +31,12 @@ type SelectStmt struct {
 
 // A `CREATE TABLE` statement
 type CreateTableStmt struct {
-	Table        string
-	Columns      []ColumnDef
+	Table   string
+	Columns []ColumnDef
+	// The parenthesised arguments of the column types, by column position:
+	// `VARCHAR(10)` has Type "VARCHAR" and TypeArgs "(10)". nil if no column
+	// type has arguments.
+	TypeArgs     []string
 	Constraints  []TableConstraint
 	WithoutRowid bool
 }
@@ -69,6 +73,28 @@ type ccDefault interface{}
 type ccReferences ForeignKeyClause
 type ccCheck struct {
 	expr Expression
+}
+
+// a column type and a column definition as the parser sees them
+type typeName struct {
+	name, args string
+}
+type parsedColumn struct {
+	def      ColumnDef
+	typeArgs string
+}
+
+func columnDefs(cols []parsedColumn) (defs []ColumnDef, typeArgs []string) {
+	for i, c := range cols {
+		defs = append(defs, c.def)
+		if c.typeArgs != "" {
+			if typeArgs == nil {
+				typeArgs = make([]string, len(cols))
+			}
+			typeArgs[i] = c.typeArgs
+		}
+	}
+	return defs, typeArgs
 }
 
 func makeColumnDef(name string, typ string, cs []columnConstraint) ColumnDef {
